@@ -152,6 +152,24 @@ def gen_cluster(rng, idx):
         it3["lo"] = rng.randrange(5, 15)
         it3["hi"] = rng.randrange(16, max(now + 5, 20))
     iters.append(it3)
+    # SetBounds after open (the new range must reach every involved node), then traverse again
+    lo = rng.randrange(8, max(now - 2, 10))
+    hi = lo + rng.randrange(2, 12)
+    seek = rng.choice([[{"cmd": "seek_first"}, {"cmd": "next", "arg": rng.choice([2, 3, 5])}],
+                       [{"cmd": "seek_last"}, {"cmd": "prev", "arg": rng.choice([2, 3, 5])}],
+                       [{"cmd": "seek_ge", "arg": lo + 1}, {"cmd": "next", "arg": 4}]])
+    it4 = {"chans": allp if rng.random() < 0.7 else sub,
+           "cmds": [{"cmd": "seek_first"}, {"cmd": "next", "arg": span},
+                    {"cmd": "set_bounds", "arg": lo, "arg2": hi}] + seek +
+                   [dict(seek[1])] * rng.randrange(1, 4) + [{"cmd": "valid"}]}
+    if rng.random() < 0.3:
+        it4["lo"], it4["hi"] = 5, rng.randrange(12, max(now, 14))
+    iters.append(it4)
+    if rng.random() < 0.5:
+        # AutoSpan steps: a fixed number of samples per step and channel
+        d = rng.choice(["next_auto", "prev_auto"])
+        iters.append({"chans": allp, "chunk": rng.choice([1, 2, 3, 5]),
+                      "cmds": [{"cmd": "seek_first" if d == "next_auto" else "seek_last"}] + [{"cmd": d}] * rng.randrange(2, 6)})
     x = rng.random()
     if x < 0.25 and any(v["node"] == FREE for v in virt):
         iters.append({"chans": [allp[0], "f0"], "cmds": [{"cmd": "seek_first"}]})
